@@ -385,7 +385,7 @@ PROPS = {
              "every zone is queried for its SOA: serving(v) needs an authoritative SOA with serial v owned by the zone, "
              "never-loaded needs SERVFAIL, absent needs the answer of the longest configured ancestor (REFUSED / "
              "SERVFAIL / NXDOMAIN with the ancestor's current SOA). distinct = (zone, observed state class, initial "
-             "load or reload) classes; the thorough tier repeats part of the workload with quandaryd under valgrind memcheck; every zone file $INCLUDEs a side file that histories break and repair independently of the zone file (a failed load must be retried at every reload until it succeeds)",
+             "load or reload) classes; the thorough tier repeats part of the workload with quandaryd under valgrind memcheck; every zone file $INCLUDEs a side file that histories break and repair independently of the zone file (a failed load must be retried at every reload until it succeeds); a third of the zones are configured through symbolic links (both of their paths), so data and modification time are those of the link target",
         assumptions=COMMON_ASSUMPTIONS + [
             "mtime-based change detection is part of the daemon's contract: every rewritten file gets a strictly larger mtime",
             "the configuration file itself is always valid; a reload that does not become visible within the poll budget "
@@ -404,7 +404,7 @@ PROPS = {
              "truncations) at every name start, a random offset and the end. All of try_from_compressed, skip_compressed, "
              "try_from_uncompressed(_all), validate_uncompressed(_all) are compared on accept/reject, name and length. "
              "distinct = distinct outcome classes (accept/reject reason, label count, pointer count, field length, "
-             "skip length, uncompressed verdicts); one in forty structured buffers is a chain of 100-280 strictly backward pointers (bare, or occasionally carrying a label)",
+             "skip length, uncompressed verdicts); one in forty structured buffers is a chain of 100-280 strictly backward pointers (bare, or occasionally carrying a label); one structured buffer in sixteen is padded so that the chunk under test starts around 16 384, 32 768, 65 536 or 131 072 and ends in a pointer back into the low part (histogram keys far-start:*)",
         assumptions=COMMON_ASSUMPTIONS + ["error *kinds* are not compared, only acceptance, name and length"],
         quick=plans(dict(build="dbg", nshards=16), dict(build="miri", nshards=4, timeout=900)),
         thorough=plans(dict(build="dbg", nshards=16), dict(build="rel", nshards=16),
